@@ -136,6 +136,7 @@ type Analysis struct {
 	ifaceLenEqParam map[string]bool
 	nnGlobals       map[*ssa.Global]bool
 	trigByAtom      map[AtomID][]*Trigger
+	keys            map[AtomID]string
 	stats           struct{ proves, fm, backprops int }
 	debug           bool
 }
@@ -236,3 +237,23 @@ func (A *Analysis) linString(l *Lin) string {
 }
 
 func (A *Analysis) ineqString(l *Lin) string { return A.linString(l) + " ≤ 0" }
+
+// keyOf returns the registration key of an atom ("" if unknown).
+func (A *Analysis) keyOf(id AtomID) string {
+	if A.keys == nil {
+		A.keys = map[AtomID]string{}
+		for k, v := range A.byKey {
+			A.keys[v] = k
+		}
+	}
+	if k, ok := A.keys[id]; ok {
+		return k
+	}
+	for k, v := range A.byKey {
+		if v == id {
+			A.keys[id] = k
+			return k
+		}
+	}
+	return ""
+}
